@@ -47,6 +47,7 @@ def PAIR(a, b): return ('pair', a, b)
 def ARR(t): return ('arr', t)
 def BOX(t): return ('box', t)
 def PAREN(t): return ('paren', t)   # `(T)`: a parenthesised type, the same type as T
+def UPH(t): return ('uph', t)       # `tags::PhantomData<T>`: a *user* type named like core's PhantomData; every trait exactly when T has it
 def REF(t): return ('ref', t)       # `&'a T`: Clone and Copy whatever T is, never Default, everything else through T
 
 
@@ -76,6 +77,8 @@ def rust(t):
         return f'({rust(t[1])})'
     if k == 'ref':
         return f"&'a {rust(t[1])}"
+    if k == 'uph':
+        return f'tags::PhantomData<{rust(t[1])}>'
     raise ValueError(t)
 
 
@@ -100,6 +103,10 @@ def parse_term(s):
         return REF(t) if t else None
     if re.fullmatch(r'[A-Z][A-Za-z0-9_]*', s) and s not in ('Self',):
         return P(s)
+    m = re.fullmatch(r'tags::PhantomData<(.+)>', s)
+    if m:
+        t = parse_term(m.group(1))
+        return UPH(t) if t else None
     m = re.fullmatch(r'(::core::marker::)?PhantomData<(.+)>', s)
     if m:
         t = parse_term(m.group(2))
@@ -191,6 +198,8 @@ class Enc:
             return z3.BoolVal(False)
         if tr in ('IntoU8', 'IntoU16'):
             return z3.BoolVal(False)
+        if k == 'uph':
+            return self.holds(t[1], tr)
         if k == 'phantom':
             return z3.BoolVal(True)
         if k == 'ref':
@@ -676,6 +685,11 @@ def c11_corpus(tier, seed):
         add('struct', LTU, [('S', 'named', [Field(REF(T)), Field(U), Field(U8)], False)], trs, hand=hand)
         add('enum', LTU, [('A', 'tuple', [Field(REF(T))], False), ('B', 'named', [Field(OPT(REF(U))), Field(LTPH)], False)], trs, hand=hand)
     add('struct', LTU, [('S', 'tuple', [Field(REF(T), Default='expr'), Field(U)], False)], [('Default', None)])
+    # a user type that is merely *named* PhantomData (it carries a T and implements each trait only when T does): bounded like any field type
+    for trs, hand in [([('Eq', None)], ['PartialEq']), ([('PartialEq', None)], []), ([('Hash', None)], []), ([('Clone', None)], []), ([('Debug', None)], []), ([('Default', None)], []), ([('Copy', None)], ['Clone']),
+                      ([('PartialOrd', None)], ['PartialEq'])]:
+        add('struct', tparams(['T', 'U']), [('S', 'named', [Field(UPH(T)), Field(PH(U)), Field(U8)], False)], trs, hand=hand)
+        add('enum', tparams(['T', 'U']), [('A', 'tuple', [Field(UPH(T))], trs[0][0] == 'Default'), ('B', 'named', [Field(OPT(UPH(U)))], False)], trs, hand=hand)
     # Eq next to PartialEq (companion), attributes carried by Eq(..)
     add('struct', tparams(['T', 'U']), [('S', 'named', [Field(T), Field(U, Eq='ignore')], False)], [('PartialEq', None), ('Eq', None)])
     add('enum', tparams(['T', 'U']), [('A', 'tuple', [Field(T, PartialEq='method'), Field(OPT(U))], False), ('B', 'unit', [], False)], [('PartialEq', None), ('Eq', None)])
@@ -926,6 +940,7 @@ pub trait Marker {}
 pub trait Marker2 {}
 pub mod userlib { pub trait Debug {} pub trait Clone {} pub trait Hash {} pub trait PartialEq {} pub trait Default {} }
 pub struct NoImpl;
+pub mod tags { #[derive(Debug, Clone, Copy, PartialEq, Eq, PartialOrd, Ord, Hash, Default)] pub struct PhantomData<T>(pub T); }
 pub fn any_fmt<T>(_v: &T, f: &mut core::fmt::Formatter<'_>) -> core::fmt::Result { f.write_str("?") }
 pub fn any_clone<T>(_v: &T) -> T { loop {} }
 pub fn any_eq<T>(_a: &T, _b: &T) -> bool { true }
@@ -1064,8 +1079,8 @@ def validate_rules(enc_params=('T', 'U')):
     """translator validation: every structural rule of holds() against rustc, on every run"""
     pr = Probe()
     checks = []
-    ctors = [lambda t: t, OPT, ARR, BOX, PH, lambda t: PAIR(t, U8), lambda t: PAIR(t, t), PAREN, REF]
-    names = ['T', 'Option<T>', '[T; 2]', 'Box<T>', 'PhantomData<T>', '(T, u8)', '(T, T)', '(T)', "&'static T"]
+    ctors = [lambda t: t, OPT, ARR, BOX, PH, lambda t: PAIR(t, U8), lambda t: PAIR(t, t), PAREN, REF, UPH]
+    names = ['T', 'Option<T>', '[T; 2]', 'Box<T>', 'PhantomData<T>', '(T, u8)', '(T, T)', '(T)', "&'static T", 'tags::PhantomData<T>']
     for tr in TRAITS:
         for has in (True, False):
             arg = pr.argtype([tr] if has else [])
